@@ -262,17 +262,17 @@ theorem persisted_complete_any_config (s0 : Publish.Sys)
 /-- Restart from a savepoint (`LoadCheckpoint` with a savepoint URI) on any storage — the job's own, with
 whatever snapshot files and history it has (`files`, `written` as in every reachable state: each persisted id is
 bounded by a file still present), or a fresh one: every id handed out afterwards, over all call sequences, is
-greater than the restored savepoint's id and than every id ever persisted in that storage, and ids keep
-increasing strictly. -/
-theorem ids_after_savepoint_restart (id : Nat) (files written delivered : List Nat)
+greater than the restored savepoint's id, than every id ever persisted in that storage and than the id of every
+savepoint artifact existing there (`spIds`, D66), and ids keep increasing strictly. -/
+theorem ids_after_savepoint_restart (id : Nat) (files written delivered spIds : List Nat)
     (hw : ∀ w ∈ written, ∃ f ∈ files, w ≤ f) (calls : List Call) :
-    let s0 := (Publish.bootSavepoint id files written delivered).store
-    (∀ n ∈ createdIds s0 calls, id < n ∧ (∀ w ∈ written, w < n) ∧ (∀ f ∈ files, f < n)) ∧
+    let s0 := (Publish.bootSavepoint id files written delivered [] [] spIds).store
+    (∀ n ∈ createdIds s0 calls, id < n ∧ (∀ w ∈ written, w < n) ∧ (∀ f ∈ files, f < n) ∧ (∀ k ∈ spIds, k < n)) ∧
     (createdIds s0 calls).Pairwise (· < ·) ∧
     ((published s0 calls).map (·.id)).Pairwise (· < ·) ∧
     (∀ snap ∈ published s0 calls, id < snap.id ∧ ∀ w ∈ written, w < snap.id) := by
   intro s0
-  have hcid : s0.cid = max id (Publish.maxL files) := rfl
+  have hcid : s0.cid = max id (max (Publish.maxL files) (Publish.maxL spIds)) := rfl
   have hpend : s0.pending = none := rfl
   have hi : Inv [] s0 := by intro p hp; rw [hpend] at hp; exact absurd hp (by simp)
   have hwle : ∀ w ∈ written, w ≤ Publish.maxL files := by
@@ -283,9 +283,10 @@ theorem ids_after_savepoint_restart (id : Nat) (files written delivered : List N
   · intro n hn
     have := created_gt calls s0 n hn
     rw [hcid] at this
-    refine ⟨by omega, fun w hwm => ?_, fun f hf => ?_⟩
+    refine ⟨by omega, fun w hwm => ?_, fun f hf => ?_, fun k hk => ?_⟩
     · have := hwle w hwm; omega
     · have := Publish.le_maxL hf; omega
+    · have := Publish.le_maxL hk; omega
   · intro snap hs
     have := published_ge calls [] s0 hi snap hs
     rw [hpend, hcid] at this
